@@ -163,6 +163,30 @@ theorem copyWithin_ranges (b : Buf) (v : View) (hoob : viewOOB b v = false) (to 
   rw [Nat.add_mul] at m1 m2
   refine ⟨by omega, by omega, by omega⟩
 
+theorem relIndex_le (x : Int) (len : Nat) : relIndex x len ≤ len := by
+  unfold relIndex; split <;> omega
+
+/-- WHATEVER integers a script passes (negative, huge, end before start), the element ranges copyWithin derives from them lie
+    inside the view: together with `copyWithin_ranges` and `copyWithin_frame`, no byte outside the view is read or written -/
+theorem copyWithin_args_inbounds (target start : Int) (fin : Option Int) (len : Nat) :
+    let to := relIndex target len
+    let from_ := relIndex start len
+    let final := match fin with | some e => relIndex e len | none => len
+    let count := min (final - from_) (len - to)
+    to + count ≤ len ∧ from_ + count ≤ len := by
+  intro to from_ final count
+  have h1 : to ≤ len := relIndex_le target len
+  have h2 : from_ ≤ len := relIndex_le start len
+  have h3 : final ≤ len := by
+    show (match fin with | some e => relIndex e len | none => len) ≤ len
+    cases fin with
+    | none => exact Nat.le_refl _
+    | some e => exact relIndex_le e len
+  show to + min (final - from_) (len - to) ≤ len ∧ from_ + min (final - from_) (len - to) ≤ len
+  omega
+
+example : relIndex (-2) 5 = 3 ∧ relIndex (-9) 5 = 0 ∧ relIndex 7 5 = 5 ∧ relIndex 2 5 = 2 := by decide
+
 -- non-vacuity: overlapping either way
 example : copyWithinSpec [0, 1, 2, 3, 4, 5, 6, 7] 8 0 2 4 = [0, 1, 0, 1, 2, 3, 6, 7] := by decide
 example : copyWithinSpec [0, 1, 2, 3, 4, 5, 6, 7] 8 2 0 4 = [2, 3, 4, 5, 4, 5, 6, 7] := by decide
